@@ -51,7 +51,7 @@ Inductive fstate :=
 | FDrained (acc : text) (dn : bool)                  (* queue seen empty, at _get_app_loop() *)
 | FChosen (acc : text) (dn : bool) (path : option nat) (* at _write_and_flush(loop, text) *)
 | FExit                                              (* returned *)
-| FCrash.                                            (* died with an exception (unreachable: C20_flush_thread_never_dies) *)
+| FCrash.                                            (* died with an exception: produced only by step_pinned (the pre-aa2fd63 deliver step) *)
 
 (* what the terminal sees.  EWrite carries app._is_running and
    app._running_in_terminal at the moment of the write. *)
@@ -315,6 +315,26 @@ Definition step (s : st) (l : label) : st :=
   end.
 
 Definition run (s : st) (ls : list label) : st := fold_left step ls s.
+
+(* The deliver step as it was before fix aa2fd63 (no try/except around
+   loop.call_soon_threadsafe): on a closed loop RuntimeError propagates and kills
+   the flush thread.  Kept only to say what C20_flush_thread_never_dies excludes:
+   at HEAD the single modelled place where the thread could die is a caught
+   exception.  Exceptions raised by the Output object or by user callbacks are
+   not modelled in either variant. *)
+Definition step_pinned (s : st) (l : label) : st :=
+  match l with
+  | LFDeliver =>
+      match fth (px s) with
+      | FChosen acc dn (Some lk) =>
+          if Nat.eqb lk (lid (en s)) && negb (lclosed (en s)) then step s l
+          else mkst (set_fth (px s) FCrash (handed (px s) ++ [acc])) (en s) (ch s) (out s)
+                    (lost s ++ [acc]) (cp s)
+      | _ => step s l
+      end
+  | _ => step s l
+  end.
+Definition run_pinned (s : st) (ls : list label) : st := fold_left step_pinned ls s.
 
 Definition enabled (s : st) (l : label) : bool :=
   let p := px s in let e := en s in let c := ch s in
